@@ -47,6 +47,14 @@ def run(ctx):
         if i in (5, n // 2, n - 1):
             ctx.sample(c)
 
+    def corrupt_case(c):
+        if len(c["text"]) > 3:
+            c["text"] = c["text"][1:]
+            return True
+        return False
+    V.selftest_replay(ctx, "drv_pname", lambda p: ["replay", "--cases", p, "--out", ctx.path("replay")], cases, corrupt_case,
+                      "an expected text without its first character")
+
     # B: code -> spec
     rep2 = vlib.run_driver("drv_pname", ["record", "--n", 3200 if q else 64000, "--out", ctx.path("rec")], env=ctx.env())
     if rep2["events"] == 0:
@@ -64,3 +72,10 @@ def run(ctx):
         return False
     V.selftest_corrupt(ctx, "Trace_PersonName", rep2["trace"], corrupt, "a truncated recorded text")
     ctx.exhaustive = False
+
+
+def replay(ctx, obj):
+    """bin/check C17 --replay <file>: re-execute one recorded violation alone"""
+    ctx.level = "model_checking"
+    ctx.rule = "replay of one recorded violation"
+    V.replay_file(ctx, "drv_pname", lambda c: ["replay", "--cases", c, "--out", ctx.path("replay")], "Trace_PersonName", ("pn",), fp_trace)
